@@ -11,6 +11,8 @@ from ..ref import reg
 from . import c04
 
 PID = "C10"
+from ..ref import nat as _nat  # noqa: E402
+NATIONAL = set(_nat.COUNTRIES) | {"DE"}
 WS = [" ", "\t", "\n", "\r\n", "\u00a0"]
 assert len(set(WS)) == 5
 RULE = ("texts: per country a valid IBAN (two fillers) and one invalid text per defect class (check "
@@ -88,6 +90,11 @@ def judge(kind: str, canonical: str, variant: str):
             kf, fu = lib.outcome(lambda: ou.formatted)
             if kf == "ok" and fu != want_u:
                 probs.append((f"{kind}:formatted-of-unvalidated-object-wrong", want_u, fu))
+    if kind == "iban" and canonical[:2] in NATIONAL:
+        n0 = lib.iban_parse(canonical, True)
+        n1 = lib.iban_parse(variant, True)
+        if "foreign" not in (n0[0], n1[0]) and (n0[0] == "ok") != (n1[0] == "ok"):
+            probs.append(("iban:variant-outcome-differs-with-national-validation", n0, n1))
     if "foreign" in (k0, k1):
         return probs  # C05's subject
     if (k0 == "ok") != (k1 == "ok"):
@@ -119,6 +126,13 @@ def texts_for_country(country: str, tier: str):
     v = out[0]
     bad_cd = v[:2] + f"{(int(v[2:4]) + 1) % 100:02d}" + v[4:]
     out += [bad_cd, v[:-1], v[:-1] + "-", "XX" + v[2:]]
+    groups = [v[i:i + 4] for i in range(0, len(v), 4)]
+    out += ["-".join(groups), ".".join(groups), "/".join(groups[:3]) + "-" + "".join(groups[3:])]
+    if country in NATIONAL:
+        from . import c05
+        nv = c05.natvalid_base(country)
+        if nv:
+            out.insert(1, bases.iban_text(country, nv))
     return list(dict.fromkeys(out))
 
 
